@@ -211,6 +211,9 @@ func (w *chWorld) translate(evs []c07Event, a *chActor) (autoRelease bool) {
 			c := w.byID[e.ID]
 			if c == nil { // a connection the channel refused to add: first callback after its close()
 				c = w.lateConn(e.ID)
+				if c == nil { // an event of a channel of an earlier case that is still winding down
+					continue
+				}
 			}
 			if c.conn == nil {
 				c.enters++
@@ -264,13 +267,7 @@ func (w *chWorld) lateConn(id uint32) *chConn {
 			return c
 		}
 	}
-	// unknown connection: should not happen
-	c := &chConn{idx: len(w.conns), connID: id}
-	w.conns = append(w.conns, c)
-	w.known = append(w.known, 2)
-	w.byID[id] = c
-	w.fail(fmt.Sprintf("harness: callback for an unknown connection id %d", id))
-	return c
+	return nil
 }
 
 // run lets actor a go until it parks at one of the armed points or finishes.
@@ -527,6 +524,10 @@ func (w *chWorld) cleanup() {
 		s.Close()
 	}
 	w.ch.Close()
+	select { // let the channel finish its callbacks before the next case installs its hook
+	case <-w.ch.ClosedChan():
+	case <-time.After(300 * time.Millisecond):
+	}
 	w.ctl.close()
 }
 
@@ -672,6 +673,9 @@ func (w *chWorld) finish(rng *rand.Rand, complete bool) bool {
 func engineChanClose(rng *rand.Rand, n int, tier string, o *Out) {
 	infeasible := 0
 	for c := 0; c < n; c++ {
+		if o.fails >= 8 || infeasible >= 12 {
+			break
+		}
 		nconns := 1 + rng.Intn(3)
 		npre := rng.Intn(2)
 		directed := rng.Intn(6)
@@ -793,7 +797,7 @@ func engineChanClose(rng *rand.Rand, n int, tier string, o *Out) {
 		o.Case("chanclose", id, in, w.obs, len(labels) > 1, verdict)
 		w.cleanup()
 	}
-	if infeasible*5 > n && n >= 10 {
+	if (infeasible*5 > n && n >= 10) || infeasible >= 12 {
 		o.Oracle("chanclose", "infeasible", false, "infeasible", fmt.Sprintf("harness: %d of %d schedules could not be followed by the implementation", infeasible, n))
 	}
 }
